@@ -97,13 +97,13 @@ MUTANTS = [
     # ------------------------------------------------------------------ C13
     dict(id="c13-drop-anchor", prop="C13", file="src/query_router.rs", expect="C13-R1",
          what="SHOW SHARD regex loses its start anchor",
-         old='''    r"(?i)^ *SHOW SHARD *;? *$",''', new='''    r"(?i) *SHOW SHARD *;? *$",'''),
+         old='''    r"(?i-u)^ *SHOW SHARD *;? *$",''', new='''    r"(?i-u) *SHOW SHARD *;? *$",'''),
     dict(id="c13-reorder-regexes", prop="C13", file="src/query_router.rs", expect="C13-R1",
          what="two regexes swapped (index no longer matches the command)",
-         old='''    r"(?i)^ *SHOW SERVER ROLE *;? *$",
-    r"(?i)^ *SET PRIMARY READS TO '?(on|off|default)'? *;? *$",''',
-         new='''    r"(?i)^ *SET PRIMARY READS TO '?(on|off|default)'? *;? *$",
-    r"(?i)^ *SHOW SERVER ROLE *;? *$",'''),
+         old='''    r"(?i-u)^ *SHOW SERVER ROLE *;? *$",
+    r"(?i-u)^ *SET PRIMARY READS TO (?:'(on|off|default)'|(on|off|default)) *;? *$",''',
+         new='''    r"(?i-u)^ *SET PRIMARY READS TO (?:'(on|off|default)'|(on|off|default)) *;? *$",
+    r"(?i-u)^ *SHOW SERVER ROLE *;? *$",'''),
     dict(id="c13-no-reply", prop="C13", file="src/client.rs", expect="C13-R2",
          what="SET PRIMARY READS acknowledged without a reply",
          old='''                        custom_protocol_response_ok(&mut self.write, "SET PRIMARY READS").await?;''', new='''                        debug!("SET PRIMARY READS");'''),
@@ -935,6 +935,15 @@ pub struct ServerPool {'''),
                                     "idle in transaction timeout in the middle of a message"
                                         .into(),
                                 ));""", new="""                                break;"""),
+    dict(id="c13-optional-single-quotes", prop="C13", file="src/query_router.rs", expect="C13-R1",
+         what="SET SHARD accepts a value with one quote only (D43 again)",
+         old="""    r"(?i-u)^ *SET SHARD TO (?:'([0-9]+|ANY)'|([0-9]+|ANY)) *;? *$",""", new="""    r"(?i-u)^ *SET SHARD TO '?([0-9]+|ANY)'? *;? *$","""),
+    dict(id="c13-unicode-case-folding", prop="C13", file="src/query_router.rs", expect="C13-R1",
+         what="SHOW SHARD folds case the Unicode way again (D43 again)",
+         old="""    r"(?i-u)^ *SHOW SHARD *;? *$",""", new="""    r"(?i)^ *SHOW SHARD *;? *$","""),
+    dict(id="c13-bare-value-group-not-read", prop="C13", file="src/query_router.rs", expect="C13-R1",
+         what="only the quoted value group is read: bare values are lost",
+         old="""captures.get(1).or_else(|| captures.get(2))""", new="""captures.get(1)"""),
     # ------------------------------------------------------------------ C17
     dict(id="c17-shutdown-checked-in-transaction", prop="C17", file="src/client.rs", expect="C17-R1",
          what="the transaction loop also reacts to the shutdown broadcast",
